@@ -3,7 +3,11 @@
 
 package watch
 
-import "github.com/fsnotify/fsnotify"
+import (
+	"github.com/fsnotify/fsnotify"
+
+	"github.com/taskctl/taskctl/pkg/runner"
+)
 
 // VerifPaths returns the paths selected by NewWatcher (verification builds only).
 func (w *Watcher) VerifPaths() []string { return w.paths }
@@ -13,3 +17,10 @@ func (w *Watcher) VerifEvents() map[string]bool { return w.events }
 
 // VerifEventName maps an fsnotify operation to the watcher's event name.
 func VerifEventName(op fsnotify.Op) string { return fsnotifyMap[op] }
+
+// VerifHandle delivers one filesystem event to the watcher's handler, as the serve loop would.
+func (w *Watcher) VerifHandle(r *runner.TaskRunner, ev fsnotify.Event) {
+	w.r = r
+	w.eventsWg.Add(1)
+	w.handle(ev)
+}
